@@ -39,13 +39,18 @@ def plan(tier):
         I.append(inst(f"spacelike_to[n=1,force={force}]", 'harness.c02', 'from_spacelike', dict(n=1, force=force), weight=5, timeout_s=600))
     for n in ([2] if q else [2, 3]):
         I.append(inst(f"closure[n={n}]", 'harness.c02', 'closure', dict(n=n), weight=10 * n, timeout_s=1800, opts=dict(max_vars=64)))
+    # frame completion in H^2 with two symbolic frame vectors (spread over the stub's cases)
+    c2 = _cases(2)
+    for k, fx in enumerate(c2 if not q else [c2[0], c2[3], c2[5], c2[6]]):
+        I.append(inst(f"spacelike_to[n=2,kernel-case={k}]", 'harness.c02', 'from_spacelike', dict(n=2), opts=dict(fix=fx), weight=60, timeout_s=1200))
+        I.append(inst(f"reflection_across[n=2,kernel-case={k}]", 'harness.c02', 'reflection', dict(n=2), opts=dict(fix=fx), weight=80, timeout_s=1200))
+    for s in (1, -1):
+        I.append(inst(f"TangentVector.origin_to[n=2,sign={s}]", 'harness.c02', 'from_tangent', dict(n=2), opts=dict(fix={"_k1_e0": s}), weight=40, timeout_s=1200))
     if not q:
-        # attempted under a wall-clock cap; inconclusive (reported) if they do not finish
-        for k, fx in enumerate(_cases(2)[:2]):
-            I.append(inst(f"spacelike_to[n=2,kernel-case={k}]", 'harness.c02', 'from_spacelike', dict(n=2), opts=dict(fix=fx), weight=300, timeout_s=2400))
-            I.append(inst(f"reflection_across[n=2,kernel-case={k}]", 'harness.c02', 'reflection', dict(n=2), opts=dict(fix=fx), weight=300, timeout_s=2400))
-        for s in (1, -1):
-            I.append(inst(f"TangentVector.origin_to[n=2,sign={s}]", 'harness.c02', 'from_tangent', dict(n=2), opts=dict(fix={"_k1_e0": s}), weight=300, timeout_s=2400))
+        # attempted under a wall-clock cap; inconclusive (reported) if it does not finish
+        I.append(inst("TangentVector.isometry_to[n=2]", 'harness.c02', 'from_tangent', dict(n=2, which='isometry_to'), opts=dict(fix={"_k1_e0": 1, "_k2_e0": 1}), weight=600, timeout_s=3000))
+        for k, fx in enumerate(_cases(3)[:2]):
+            I.append(inst(f"origin_to[n=3,kernel-case={k}]", 'harness.c02', 'from_point', dict(n=3), opts=dict(fix=fx), weight=600, timeout_s=3000))
     return dict(
         instances=I,
         explanation=("bounded symbolic verification: each isometry constructor (standard_rotation, Isometry.elliptic, standard_loxodromic, sl2_iso / "
@@ -55,8 +60,8 @@ def plan(tier):
                      "null-space basis in a parametrisation that is exhaustive for Gram-Schmidt consumers (signed permutation x unit upper triangular; "
                      "cases spread over instances).  Closure under composition / inverse: one inductive step on arbitrary matrices"),
         bounds=dict(polynomial_constructors="n<=3 (quick) / n<=4 (thorough); distances preserved checked for n<=2",
-                    find_isometry_family="n<=2 (origin_to, timelike_to); spacelike_to n=1 (n=2 attempted in thorough)",
-                    reflection_and_tangent_transport="n=2 attempted in the thorough tier under a 40 min cap per slice",
+                    find_isometry_family="n<=2: origin_to, timelike_to, spacelike_to, reflection_across, TangentVector.origin_to (all stub cases in thorough, a spread of 4 in quick)",
+                    tangent_transport="isometry_to and H^3 origin_to attempted in the thorough tier under a 50 min cap",
                     closure="n=2 (quick), n<=3 (thorough): all words by induction"),
         outside=["Coxeter hyperbolic_rep (see C08)", "find_isometry-based constructors for n>=3",
                  "TangentVector / Hyperplane constructions in H^1 (degenerate: see DESIGN.md findings)", "floating-point rounding"],
